@@ -27,13 +27,13 @@ CHECKS={
    text="Exploration: 60k/300k generated workspaces with names from tiny pools (shadowing is the norm; some locals are called like an import accessor; clauses with binder-free alternative patterns); every emitted identifier token carries the declaration Gleam binds it to; go-to-definition must land exactly there (focus contains the name token, inside the declaration node, right file), nowhere else, and nowhere for unbound names.",
    note="The scoping model is mine (written from Gleam's rules); constructs glas does not lower are 'weak' occurrences (nothing accepted, wrong declaration not); known finding C05-F1 (guards) excluded by construction and replayed.", ref="DESIGN.md §5 C05"),
  "C06": dict(tech="proptest-generated, corpus and damaged workspaces; metamorphic inverse-view oracle between references/highlight and go-to-definition over all identifier tokens", engine="sandbox",
-   text="Exploration: for every declaration reached by go-to-definition from any identifier token, references from EVERY occurrence spelled with its name must equal exactly the set of such occurrences plus the name token, without duplicates, and highlight must equal the in-file part.",
+   text="Exploration (generated scope-aware, corpus, damaged workspaces, and typed 'chain' workspaces in which a record value reaches a module that does not import its type): for every declaration reached by go-to-definition from any identifier token, references from EVERY occurrence spelled with its name must equal exactly the set of such occurrences plus the name token, without duplicates, and highlight must equal the in-file part.",
    note="Alias spellings are outside the compared sets; module targets skipped.", ref="DESIGN.md §5 C06"),
  "C07": dict(tech="proptest-generated, corpus and damaged workspaces; metamorphic rename / re-analyse / rename-back oracle", engine="sandbox",
    text="Exploration: up to 25/80 renames per workspace to a fresh name; edits must be whole old-name tokens, disjoint, equal to references; a FRESH analysis of the edited workspace must resolve every identifier to the correspondingly mapped declaration and report the same syntax errors; renaming back must restore the text.",
    note="Fresh names are of the token's own class; refusals are C08's subject.", ref="DESIGN.md §5 C07"),
- "C08": dict(tech="proptest-generated three-package workspaces x exhaustive (identifier occurrence x 48 candidate names) matrix; reference-model oracle for name classes, locality and alias spellings", engine="sandbox",
-   text="Exploration: every identifier occurrence of every generated workspace (local root, external build/packages dependency, local path dependency) is renamed to each of 48 candidate names; refusals must match an independent model (name class per symbol kind, module, alias spelling, external package), prepare_rename must agree with rename, no accepted rename may edit a dependency.",
+ "C08": dict(tech="proptest-generated three-package workspaces x exhaustive (identifier occurrence x 48 candidate names) matrix, in-process and (project trees on disk) against the real binary; reference-model oracle for name classes, locality and alias spellings", engine="sandbox",
+   text="Exploration: every identifier occurrence of every generated workspace (local root, external build/packages dependency, local path dependency) is renamed to each of 48 candidate names; a second stage runs 300/5k project trees on disk against the real server (stream-chosen opening order, a dependency's module first among them) and sends prepareRename and rename for local and dependency symbols; refusals must match an independent model (name class per symbol kind, module, alias spelling, external package), prepare_rename must agree with rename, no accepted rename may edit a dependency.",
    note="Symbol kind/locality/alias are known from the generator; the name-class model does not use the glas lexer.", ref="DESIGN.md §5 C08"),
  "C09": dict(tech="proptest-generated two-module programs from a type-directed generator (every expression built against a chosen target type); reference-model oracle: the type known by construction vs the type shown on hover, up to alpha-equivalence", engine="inproc",
    text="Exploration: 30k/100k generated programs (about 700k/2.3M binders): literals, operators incl. && || != and prefix ! -, comparisons, tuples and indexes, lists and spreads, Result, records with labels in any order, field access, blocks, case on Bool/Result/lists with several subjects, generic functions and constructors, labelled and cross-module calls, lambdas, captures, pipelines (also into a call with a function literal), function literals passed to generic higher-order functions (positional, labelled, labelled in another order) with bodies projecting the parameter, `use`, case on custom types with alternative patterns / `..` / nested patterns, record update, `let assert`, let/lambda annotations incl. aliases of this and of another module, `todo` initialisers, constructor patterns with every mix of positional and labelled sub-patterns, functions in stream-chosen order with a mutually recursive group. Hover on every binder must show the type the generator built the program for.",
@@ -45,13 +45,13 @@ CHECKS={
    text="Exploration: 3k/80k workspaces broken by damage, truncation, emptied files, self/unresolved/duplicate/cyclic imports, arity-mismatched clauses, alias cycles, non-ASCII identifiers, garbage files; ~500 query calls each. A panic is caught and attributed; a worker killed by a signal or stalled is confirmed alone.",
    note="Offsets within 0..=len; known finding C10-F1 (import cycle with mutually recursive qualified calls => salsa cycle panic) excluded by construction and replayed.", ref="DESIGN.md §5 C10"),
  "C20": dict(tech="same generated/broken workspaces x full query sweep; validity-predicate oracle over every reported range", engine="sandbox",
-   text="Exploration: every range of every answer of the sweep (about 1M ranges quick) is checked for workspace membership, bounds, char boundaries, focus inside full range, single-token coverage for name-like kinds, token alignment for completion replacement ranges, empty diagnostics only at token boundaries.",
+   text="Exploration: every range of every answer of the sweep (about 1M ranges quick) is checked for workspace membership, bounds, char boundaries, its LSP form (converted with the server's own line map through the hook, compared with an independent client-side position table), focus inside full range, single-token coverage for name-like kinds, token alignment for completion replacement ranges, empty diagnostics only at token boundaries.",
    note="Token ranges from the repository's lexer (C01 ties the tree to it).", ref="DESIGN.md §5 C20"),
  "C11": dict(tech="proptest-generated edit histories (stateful: vec of op batches + interpreter against a plain model); differential oracle against two fresh instances queried in opposite orders", engine="sandbox",
    text="Exploration: 2.5k/50k histories of up to 8/30 change batches (edits, whole-file replacement, item added/removed at the top, file added/removed, dependency edge, is_local, roots re-sent, query bursts) plus LRU-pressure workspaces of 135-155 files; after every (2nd) batch all query kinds at sampled offsets of all live files must agree between the long-lived host, a fresh host and a second fresh host queried in reverse order.",
    note="Changes are batched the way the server's Vfs batches them; which panic a query dies with is not compared (C10's subject), that one side panics and the other answers is.", ref="DESIGN.md §5 C11"),
  "C12": dict(tech="proptest-generated schedules driving real OS threads (one writer, 1-4 readers per version) with per-version precomputed answers; invariant over the history of reader results + liveness watchdog", engine="threads",
-   text="Exploration: 1k/20k seeded schedules over workspaces of 13-51 files whose texts embed the version; readers loop over ~50 queries on their snapshot and may stop only on Cancelled or after apply_change returned; every result must be Cancelled or exactly the precomputed answer for the snapshot's own (version, package graph) state; content changes and graph-only changes are interleaved; apply_change must return (45 s watchdog, confirmed by replay); a snapshot taken afterwards answers for the new state.",
+   text="Exploration: 1k/20k seeded schedules over workspaces of 13-51 files whose texts embed the version; readers loop over ~60 queries through every entry point of the analysis on their snapshot and may stop only on Cancelled or after apply_change returned; every result must be Cancelled or exactly the precomputed answer for the snapshot's own (version, package graph) state; content changes and graph-only changes are interleaved; apply_change must return (45 s watchdog, confirmed by replay); a snapshot taken afterwards answers for the new state.",
    note="The OS owns the scheduler: rare interleavings stay unexplored; the causal structure of the oracle makes swallowed cancellation, retry-on-cancel and leaked snapshots fail deterministically.", ref="DESIGN.md §5 C12"),
  "C15": dict(tech="proptest-generated LSP message sequences (valid and invalid parameters by rule) against the real binary; invariant over the history (alive, one response per id) + reference model of the document store with allowed-outcome sets", engine="lsp",
    text="Exploration: 3k/60k sequences of 5-40 messages (opens, changes with out-of-range / reversed / mid-surrogate / huge positions and further changes after an invalid one, closes, saves, watched-file events, non-file URIs, all 11 request kinds, bursts of 2*cores+1 identical requests written at once) against the real `glas --stdio`; the process must stay alive, answer every id exactly once, end with status 0, and every document's text (via glas/syntaxTree) must be one the model allows - never an edit applied elsewhere.",
